@@ -96,6 +96,11 @@ func p4scenario(v int) []p4step {
 			}
 		}}
 	}
+	if v == 4 {
+		// a pipeline with 8 counter cells, six of them held when establishment D meets its faults: whatever a failed write
+		// makes the agent hand back is, more likely than not, a cell a live PDR counts with
+		return []p4step{est("A", 1, 1), est("B", 2, 2), est("C", 3, 1), est("D", 4, 1), modQer("D"), del("A"), del("B"), del("C"), del("D")}
+	}
 	if v%4 == 3 {
 		// a session whose two QERs are referenced by every PDR: one of them is session-level, and an Update QER that lowers its
 		// rate makes the marking pick the other one; the cells were allocated under the first labelling
@@ -131,9 +136,12 @@ func p4scenario(v int) []p4step {
 
 func c15(c *ctx) {
 	r := c.rng
-	nScen := c.pick(4, 4)
+	nScen := c.pick(5, 5)
 	for v := 0; v < nScen; v++ {
 		o := sysh.Opts{P4: true, Pool: "10.60.0.0/16", P4DefaultTC: 3}
+		if v == 4 {
+			o.P4CtrSize = 8
+		}
 		w, err := newWorld(c, o)
 		if err != nil {
 			panic(err)
